@@ -233,35 +233,192 @@ func (w *World) genVCs(fn *ssa.Function, useH bool, dropped, hcount map[string]b
 	return c, "", nil
 }
 
-// frameObligations: everything not named in `modifies` is unchanged for pre-existing objects.
-func (c *Ctx) frameObligations(ct *Contract, names calleeNames, args []Val, out *State, rr string) {
-	c.groupedFrame("frame", "", ct, names, args, out, rr, c.root.Pos(), "only the locations in `modifies` change")
+// ---------- frame conditions (`modifies`) ----------
+
+// frameItem: one heap component / element memory and the locations of it the function may change.
+type frameItem struct {
+	key   string
+	isMem bool
+	pre   string   // term in the entry state
+	post  string   // term in the state under inspection
+	locs  []string // refs (heap) or array ids (mem) that may change
+	whole bool     // the whole component may change
 }
 
-// groupedFrame emits ONE obligation for the conjunction of all per-component frame conditions (they are almost always
-// discharged together in one query); the per-component obligations are kept as Parts and are solved one by one only when
-// the group is not discharged, so that a failure still names the component.
-func (c *Ctx) groupedFrame(kind, detailPfx string, ct *Contract, names calleeNames, args []Val, st *State, reach string, pos token.Pos, what string) {
-	var parts []Obl
-	var conds []string
-	mark := len(c.obls)
-	nasm := len(c.asms)
-	c.frameConds(ct, names, args, st, func(detail, cond, expr string, _ string) {
-		// record as individual obligation objects without assuming them one by one
-		c.oblige(kind, detailPfx+detail, reach, cond, pos, expr)
-		conds = append(conds, cond)
-	})
-	if len(c.obls) == mark {
+// frameItems lists every component known in st with its modifiable locations according to the contract's `modifies`.
+// ok is false when the contract modifies `*`.
+func (c *Ctx) frameItems(ct *Contract, names calleeNames, args []Val, st *State) (items []frameItem, ok bool) {
+	env := &CEnv{c: c, st: c.entryState, old: c.entryState, lookup: mkLookup(names, args, nil), pkg: names.pkg}
+	var locs []modLoc
+	for _, m := range ct.Modifies {
+		l := c.resolveMod(env, m)
+		if l.all {
+			return nil, false
+		}
+		locs = append(locs, l)
+	}
+	c.touchAll(st)
+	c.touchAll(c.entryState)
+	for _, k := range sortedKeys(st.heap) {
+		it := frameItem{key: k, post: st.heap[k]}
+		pre, okp := c.entryState.heap[k]
+		if !okp {
+			pre = c.defName(c.entryState, k)
+		}
+		it.pre = pre
+		for _, l := range locs {
+			if l.stream != "" {
+				for _, g := range streamGhosts {
+					if k == "ghost."+g.name {
+						it.locs = append(it.locs, l.stream)
+					}
+				}
+				continue
+			}
+			if l.memId != "" || l.keyPfx == "" {
+				continue
+			}
+			if keyHasPrefix(k, l.keyPfx) {
+				if l.whole {
+					it.whole = true
+				} else {
+					it.locs = append(it.locs, l.ref)
+				}
+			}
+		}
+		items = append(items, it)
+	}
+	for _, k := range sortedKeys(st.mem) {
+		it := frameItem{key: k, isMem: true, post: st.mem[k]}
+		pre, okp := c.entryState.mem[k]
+		if !okp {
+			pre = c.defName(c.entryState, "M:"+k)
+		}
+		it.pre = pre
+		for _, l := range locs {
+			if l.memId != "" {
+				if keyHasPrefix(k, typeKey(l.elem)) {
+					it.locs = append(it.locs, l.memId)
+				}
+				continue
+			}
+			if l.keyPfx != "" && l.t != nil {
+				c.leafKeys(l.keyPfx, l.t, func(string, string) {}, func(key string, at *types.Array) {
+					if keyHasPrefix(k, typeKey(at.Elem())) {
+						if l.whole {
+							it.whole = true
+						} else {
+							it.locs = append(it.locs, arrIdOf(l.ref, key))
+						}
+					}
+				})
+			}
+		}
+		items = append(items, it)
+	}
+	return items, true
+}
+
+// framedSyntactically: post is pre updated only by stores at the allowed locations (through named definitions and ite merges).
+func (c *Ctx) framedSyntactically(post, pre string, locs []string, depth int) bool {
+	if post == pre {
+		return true
+	}
+	if depth > 200 {
+		return false
+	}
+	if d, ok := c.defs[post]; ok {
+		return c.framedSyntactically(d, pre, locs, depth+1)
+	}
+	if strings.HasPrefix(post, "(store ") {
+		kids, _ := sexprChildren(post, 0)
+		if len(kids) == 4 {
+			idx := post[kids[2][0]:kids[2][1]]
+			for _, l := range locs {
+				if l == idx {
+					return c.framedSyntactically(post[kids[1][0]:kids[1][1]], pre, locs, depth+1)
+				}
+			}
+		}
+		return false
+	}
+	if strings.HasPrefix(post, "(ite ") {
+		kids, _ := sexprChildren(post, 0)
+		if len(kids) == 4 {
+			return c.framedSyntactically(post[kids[2][0]:kids[2][1]], pre, locs, depth+1) && c.framedSyntactically(post[kids[3][0]:kids[3][1]], pre, locs, depth+1)
+		}
+	}
+	return false
+}
+
+// frameCond is the SMT form of one frame condition. allRefs: objects up to the current allocation horizon c.frameTop
+// (loop frame invariants: everything that existed when the iteration started), otherwise objects that existed at entry.
+func (c *Ctx) frameCond(it frameItem, allRefs bool) string {
+	exp := it.pre
+	for _, r := range it.locs {
+		exp = fmt.Sprintf("(store %s %s (select %s %s))", exp, r, it.post, r)
+	}
+	if it.isMem {
+		rk := c.fresh("fmk", "Int")
+		bound := fmt.Sprintf("(and (>= %s 0) (<= %s (+ (* 4096 top0) 4095)))", rk, rk)
+		if allRefs {
+			bound = fmt.Sprintf("(and (>= %s 0) (<= %s (+ (* 4096 %s) 4095)))", rk, rk, c.frameTop)
+		}
+		return fmt.Sprintf("(=> %s (= (select %s %s) (select %s %s)))", bound, it.post, rk, exp, rk)
+	}
+	rk := c.fresh("frk", "Int")
+	bound := fmt.Sprintf("(and (>= %s 0) (<= %s top0))", rk, rk)
+	if allRefs {
+		bound = fmt.Sprintf("(and (>= %s 0) (<= %s %s))", rk, rk, c.frameTop)
+	}
+	return fmt.Sprintf("(=> %s (= (select %s %s) (select %s %s)))", bound, it.post, rk, exp, rk)
+}
+
+// frameObligations: everything not named in `modifies` is unchanged for pre-existing objects.
+func (c *Ctx) frameObligations(ct *Contract, names calleeNames, args []Val, out *State, rr string) {
+	c.groupedFrame("frame", "", ct, names, args, out, rr, c.root.Pos(), "only the locations in `modifies` change", false)
+}
+
+// groupedFrame emits the frame conditions of state st. Conditions that hold syntactically (the component is the entry
+// component updated only at allowed locations) are counted as discharged by construction; the rest become ONE grouped
+// obligation whose per-component parts are solved individually only if the group is not discharged at once.
+func (c *Ctx) groupedFrame(kind, detailPfx string, ct *Contract, names calleeNames, args []Val, st *State, reach string, pos token.Pos, what string, allRefs bool) {
+	items, ok := c.frameItems(ct, names, args, st)
+	if !ok {
 		return
 	}
-	parts = append(parts, c.obls[mark:]...)
-	// the parts were generated with growing assumption prefixes (each assumes the previous ones); as parts of a group they
-	// are all checked under the assumptions that held before the group
+	var parts []Obl
+	var conds []string
+	nasm, ndecl0 := len(c.asms), len(c.decls)
+	_ = ndecl0
+	for _, it := range items {
+		if it.whole || it.post == it.pre {
+			continue
+		}
+		if c.framedSyntactically(it.post, it.pre, it.locs, 0) {
+			c.notes["frame-syntactic"]++
+			continue
+		}
+		detail := it.key
+		if it.isMem {
+			detail = "mem:" + it.key
+		}
+		cond := c.frameCond(it, allRefs)
+		mark := len(c.obls)
+		c.oblige(kind, detailPfx+detail, reach, cond, pos, what+": component "+detail)
+		if len(c.obls) > mark {
+			parts = append(parts, c.obls[mark])
+			c.obls = c.obls[:mark]
+			conds = append(conds, cond)
+		}
+	}
+	if len(parts) == 0 {
+		return
+	}
 	for i := range parts {
 		parts[i].NAsm = nasm
 		parts[i].NDecl = len(c.decls)
 	}
-	c.obls = c.obls[:mark]
 	if len(parts) == 1 {
 		c.obls = append(c.obls, parts[0])
 		return
@@ -276,114 +433,57 @@ func (c *Ctx) groupedFrame(kind, detailPfx string, ct *Contract, names calleeNam
 	c.obls = append(c.obls, g)
 }
 
-// frameConds enumerates, for every heap component / element memory that differs from the entry state, the condition
-// "outside the locations named in `modifies` it equals the entry state". emit receives the obligation form (a select at a
-// fresh index) and the equational form (post == entry updated at the modified locations), used as a loop-head assumption.
-func (c *Ctx) frameConds(ct *Contract, names calleeNames, args []Val, out *State, emit func(detail, cond, expr, eqForm string)) {
-	env := &CEnv{c: c, st: c.entryState, old: c.entryState, lookup: mkLookup(names, args, nil), pkg: names.pkg}
-	var locs []modLoc
-	for _, m := range ct.Modifies {
-		l := c.resolveMod(env, m)
-		if l.all {
-			return
-		}
-		locs = append(locs, l)
+// loopFrameHavoc replaces the loop-head havoc of every component that the function may only change at specific
+// locations by "entry component updated at those locations with fresh values": the frame invariant is built into the
+// state. It is checked on loop entry (inv-init) and on every back edge (inv-pres) for ALL references.
+func (c *Ctx) loopFrameHavoc(ct *Contract, names calleeNames, args []Val, before, st *State, reach string, pos token.Pos, ordinal int, allocKeys map[string]bool) {
+	// inv-init: the state reaching the loop satisfies the frame
+	c.groupedFrame("inv-init", fmt.Sprintf("loop%d/frame:", ordinal), ct, names, args, before, reach, pos, "frame holds on loop entry", true)
+	items, ok := c.frameItems(ct, names, args, st)
+	if !ok {
+		return
 	}
-	c.touchAll(out)
-	c.touchAll(c.entryState)
-	// heap components
-	hkeys := sortedKeys(out.heap)
-	for _, k := range hkeys {
-		post := out.heap[k]
-		pre, ok := c.entryState.heap[k]
-		if !ok {
-			pre = c.defName(c.entryState, k)
-		}
-		if post == pre {
+	for _, it := range items {
+		if it.whole || it.post == it.pre {
 			continue
 		}
-		whole := false
-		var refs []string
-		for _, l := range locs {
-			if l.stream != "" {
-				for _, g := range streamGhosts {
-					if k == "ghost."+g.name {
-						refs = append(refs, l.stream)
-					}
-				}
-				continue
-			}
-			if l.memId != "" || l.keyPfx == "" {
-				continue
-			}
-			if k == l.keyPfx || strings.HasPrefix(k, l.keyPfx+".") || strings.HasPrefix(k, l.keyPfx+"#") {
-				if l.whole {
-					whole = true
-				} else {
-					refs = append(refs, l.ref)
-				}
-			}
+		// was this component havocked by the loop head? (a fresh symbol, different from the state before the havoc)
+		var was string
+		if it.isMem {
+			was = before.mem[it.key]
+		} else {
+			was = before.heap[it.key]
 		}
-		if whole {
+		if was == it.post {
 			continue
 		}
-		exp := pre
-		for _, r := range refs {
-			exp = fmt.Sprintf("(store %s %s (select %s %s))", exp, r, post, r)
-		}
-		rk := c.fresh("frk", "Int")
-		cond := fmt.Sprintf("(=> (and (>= %s 0) (<= %s top0)) (= (select %s %s) (select %s %s)))", rk, rk, post, rk, exp, rk)
-		// equational form restricted to pre-existing objects is not expressible without a quantifier; objects allocated
-		// later (ref > top0) are fresh and unconstrained either way, so the whole-array equation is used only when no
-		// allocation happens in the loop (checked by the caller through the obligation form on the back edge)
-		eq := fmt.Sprintf("(forall ((q_fr Int)) (! (=> (and (>= q_fr 0) (<= q_fr top0)) (= (select %s q_fr) (select %s q_fr))) :pattern ((select %s q_fr))))", post, exp, post)
-		emit(k, cond, "only the locations in `modifies` change: component "+k, eq)
-	}
-	mkeys := sortedKeys(out.mem)
-	for _, k := range mkeys {
-		post := out.mem[k]
-		pre, ok := c.entryState.mem[k]
-		if !ok {
-			pre = c.defName(c.entryState, "M:"+k)
-		}
-		if post == pre {
-			continue
-		}
-		whole := false
-		var ids []string
-		for _, l := range locs {
-			if l.memId != "" {
-				pfx := typeKey(l.elem)
-				if k == pfx || strings.HasPrefix(k, pfx+".") || strings.HasPrefix(k, pfx+"#") {
-					ids = append(ids, l.memId)
-				}
-				continue
-			}
-			if l.keyPfx != "" && l.t != nil {
-				// array fields below this location
-				c.leafKeys(l.keyPfx, l.t, func(string, string) {}, func(key string, at *types.Array) {
-					pfx := typeKey(at.Elem())
-					if k == pfx || strings.HasPrefix(k, pfx+".") || strings.HasPrefix(k, pfx+"#") {
-						if l.whole {
-							whole = true
-						} else {
-							ids = append(ids, arrIdOf(l.ref, key))
-						}
-					}
-				})
+		// objects of this component's type are allocated inside the loop: their fields legitimately change, so the
+		// built-in frame would be wrong for them; the component simply stays havocked
+		skip := false
+		for ak := range allocKeys {
+			if keyHasPrefix(it.key, ak) {
+				skip = true
 			}
 		}
-		if whole {
+		if skip {
+			c.notes["loop-frame-skipped(alloc in loop): "+it.key]++
 			continue
 		}
-		exp := pre
-		for _, id := range ids {
-			exp = fmt.Sprintf("(store %s %s (select %s %s))", exp, id, post, id)
+		srt := st.hsort[it.key]
+		if it.isMem {
+			srt = st.hsort["M:"+it.key]
 		}
-		rk := c.fresh("fmk", "Int")
-		cond := fmt.Sprintf("(=> (and (>= %s 0) (<= %s (+ (* 4096 top0) 4095))) (= (select %s %s) (select %s %s)))", rk, rk, post, rk, exp, rk)
-		eq := fmt.Sprintf("(forall ((q_fm Int)) (! (=> (and (>= q_fm 0) (<= q_fm (+ (* 4096 top0) 4095))) (= (select %s q_fm) (select %s q_fm))) :pattern ((select %s q_fm))))", post, exp, post)
-		emit("mem:"+k, cond, "only the arrays in `modifies` change: element memory "+k, eq)
+		inner := strings.TrimSuffix(strings.TrimPrefix(srt, "(Array Int "), ")")
+		term := it.pre
+		for _, l := range it.locs {
+			term = fmt.Sprintf("(store %s %s %s)", term, l, c.fresh("lh", inner))
+		}
+		term = c.name("lf", srt, term)
+		if it.isMem {
+			st.mem[it.key] = term
+		} else {
+			st.heap[it.key] = term
+		}
 	}
 }
 
